@@ -17,3 +17,4 @@ import SkyllhModel.Props.C03
 import SkyllhModel.Props.C02
 import SkyllhModel.Props.C17
 import SkyllhModel.Props.C20
+import SkyllhModel.Props.C11
